@@ -53,7 +53,9 @@ theorem pe_fresh (g : G) (v : Verifier F G) (e : EncDeal F G) (rnd : Nat)
   · exact Or.inl ⟨err, process_decrypt_error g v e rnd err hd⟩
   · rcases hsh : d.share with _ | sh
     · exact Or.inl ⟨.noShare, by simp [processEncryptedDeal, hd, hsh]⟩
-    · by_cases hi : sh.i = (v.index : Int)
+    · by_cases hvn : sh.v.isNone = true
+      · exact Or.inl ⟨.noShare, by simp [processEncryptedDeal, hd, hsh, hvn]⟩
+      by_cases hi : sh.i = (v.index : Int)
       · right
         have hst := verifyDeal_fresh_state g v.dealer v.vs d
         have hna := verifyDeal_fresh_not_already g (newAgg (S := F) v.dealer v.vs d.commits d.t d.sid) d rfl
@@ -70,7 +72,7 @@ theorem pe_fresh (g : G) (v : Verifier F G) (e : EncDeal F G) (rnd : Nat)
           RespSig.sign v.long (Sid.h v.dealer v.vs d.commits d.t) v.index verr.isNone rnd⟩
         refine ⟨d, r, { a1 with responses := a1.responses.set v.index (some r) }, rfl, ?_, rfl, rfl, rfl, ?_, ?_,
           h1, h2, h3, h5, ?_, h6, ?_⟩
-        · simp only [processEncryptedDeal, hd, hsh, hi, ne_eq, not_true_eq_false, if_false, hv, hvd, hna]
+        · simp only [processEncryptedDeal, hd, hsh, hvn, Bool.false_eq_true, hi, ne_eq, not_true_eq_false, if_false, hv, hvd, hna]
           simp only [addResponse, hadd, if_false, hhas, Bool.false_eq_true]
           rfl
         · have hiff' : verr = none ↔ Consistent g v.dealer v.vs d := hiff
@@ -78,7 +80,7 @@ theorem pe_fresh (g : G) (v : Verifier F G) (e : EncDeal F G) (rnd : Nat)
         · intro sh' hs'; rw [hsh] at hs'; injection hs' with hs'; rw [← hs']; exact hi
         · simp [h4]
         · intro hs; apply h7; simpa [r, Option.isNone_iff_eq_none] using hs
-      · exact Or.inl ⟨.index, by simp [processEncryptedDeal, hd, hsh, hi]⟩
+      · exact Or.inl ⟨.index, by simp [processEncryptedDeal, hd, hsh, hvn, hi]⟩
 
 /-! ### the invariant -/
 
